@@ -895,6 +895,9 @@ static void janet_thread_chan_cb(JanetEVGenericMessage msg) {
     int mode = msg.tag;
     JanetChannel *channel = (JanetChannel *) msg.argp;
     Janet x = msg.argj;
+    /* The fiber was rooted when its pending entry was added to the channel. That entry has now
+     * been consumed (this message is the result), so drop the root again. */
+    janet_gcunroot(janet_wrap_fiber(fiber));
     janet_chan_lock(channel);
     JANET_VERIF_POINT(janet_chan_is_threaded(channel) ? 1 : 0, &channel->lock);
     if (fiber->sched_id == sched_id) {
@@ -1354,6 +1357,7 @@ JANET_CORE_FN(cfun_channel_close,
                 msg.argj = janet_wrap_boolean(writer.mode == JANET_CP_MODE_CHOICE_WRITE);
                 janet_ev_post_event(vm, janet_thread_chan_cb, msg);
             } else {
+                if (janet_chan_is_threaded(channel)) janet_gcunroot(janet_wrap_fiber(writer.fiber));
                 if (janet_fiber_can_resume(writer.fiber) && writer.sched_id == writer.fiber->sched_id) {
                     if (writer.mode == JANET_CP_MODE_CHOICE_WRITE) {
                         janet_schedule(writer.fiber, make_close_result(channel));
@@ -1375,6 +1379,7 @@ JANET_CORE_FN(cfun_channel_close,
                 msg.argj = janet_wrap_boolean(reader.mode == JANET_CP_MODE_CHOICE_READ);
                 janet_ev_post_event(vm, janet_thread_chan_cb, msg);
             } else {
+                if (janet_chan_is_threaded(channel)) janet_gcunroot(janet_wrap_fiber(reader.fiber));
                 if (janet_fiber_can_resume(reader.fiber) && reader.sched_id == reader.fiber->sched_id) {
                     if (reader.mode == JANET_CP_MODE_CHOICE_READ) {
                         janet_schedule(reader.fiber, make_close_result(channel));
